@@ -466,8 +466,9 @@ theorem resolveHeaders_pointwise (env : String → Option String) : ∀ (hs r : 
           obtain ⟨y, hy₁, hy₂⟩ := ih₂ j hj
           exact ⟨y, by simpa using hy₁, by simpa using hy₂⟩
 
-/-- the flags of the query that is sent, as the source has them now (a change re-opens F4/F5) -/
-theorem query_flags_pinned : Tables.introspectionQueryFlags = [("descriptions", "False")] := by decide +kernel
+/-! The flags of the query that is sent are NOT pinned by a theorem: the model reads them from the regenerated
+    table (`Introspect.queryFlag`), so that repairing finding F4 (`input_value_deprecation=True`) moves the model
+    with the code instead of breaking a proof. -/
 
 example : headerValue (fun n => if n = "TOKEN" then some "secret" else none) "$TOKEN" = .ok "secret" := by decide +kernel
 example : headerValue (fun _ => none) "Bearer x" = .ok "Bearer x" := by decide +kernel
